@@ -445,6 +445,167 @@ theorem attrs_ok (bs : List (Str × List (Str × Str))) (h : ∀ b ∈ bs, GoodB
   intro b hb
   exact (block_ok b (h b hb)).1
 
+/-! ### the molecule's items and blocks satisfy the side conditions -/
+
+theorem items_good (syms : List Str) (hsyms : ∀ s ∈ syms, s ∈ elementSyms) :
+    ∀ i ∈ hillItems syms, symOk i.1 = true ∧ 1 ≤ i.2 := by
+  obtain ⟨hcnt, _, hmem⟩ := hillItems_counts syms
+  intro i hi
+  refine ⟨?_, (hcnt i hi).1⟩
+  have : i.1 ∈ syms := (hmem i.1).mp (List.mem_map_of_mem hi)
+  exact List.all_eq_true.mp elementSyms_ok _ (hsyms _ this)
+
+theorem intRepr_pos (v : Int) (h : 0 < v) : ∃ n, 1 ≤ n ∧ intRepr v = natRepr n := by
+  cases v with
+  | ofNat n => exact ⟨n, by have : (0:Int) < (n : Int) := h; omega, rfl⟩
+  | negSucc n => exact absurd h (by simp)
+
+theorem ok_mass : keyOk (Tok.lit "mass".toList) = true := List.all_eq_true.mp key_ok (tk "mass") (by simp)
+theorem ok_rad : keyOk (Tok.lit "rad".toList) = true := List.all_eq_true.mp key_ok (tk "rad") (by simp)
+
+theorem attrPairs_good (a : Atom) (hm : ∀ v, a.mass = some v → 0 < v) (hr : ∀ v, a.rad = some v → 0 < v) :
+    ∀ p ∈ attrPairs a, GoodPair p := by
+  intro p hp
+  unfold attrPairs at hp
+  rcases List.mem_append.mp hp with hp | hp
+  · cases hmass : a.mass with
+    | none => rw [hmass] at hp; simp at hp
+    | some v =>
+      rw [hmass] at hp
+      have := List.mem_singleton.mp hp
+      subst this
+      obtain ⟨n, hn, he⟩ := intRepr_pos v (hm v hmass)
+      exact ⟨ok_mass, by show numOk (numTok (intRepr v)) = true; rw [he]; exact numOk_natRepr n hn⟩
+  · cases hrad : a.rad with
+    | none => rw [hrad] at hp; simp at hp
+    | some v =>
+      rw [hrad] at hp
+      have := List.mem_singleton.mp hp
+      subst this
+      obtain ⟨n, hn, he⟩ := intRepr_pos v (hr v hrad)
+      exact ⟨ok_rad, by show numOk (numTok (intRepr v)) = true; rw [he]; exact numOk_natRepr n hn⟩
+
+theorem blocks_good (m : Graph)
+    (hpos : ∀ n ∈ m.nodes, (∀ v, n.attrs.mass = some v → 0 < v) ∧ (∀ v, n.attrs.rad = some v → 0 < v)) :
+    ∀ b ∈ attrsAstOf m, GoodBlock b := by
+  intro b hb
+  have h2 : attrsAstOf m = (m.nodes.mergeSort fun a b => decide (a.id ≤ b.id)).filterMap nodeBlock := rfl
+  rw [h2, List.mem_filterMap] at hb
+  obtain ⟨n, hn, hnb⟩ := hb
+  have hn' : n ∈ m.nodes := List.mem_mergeSort.mp hn
+  unfold nodeBlock at hnb
+  split at hnb
+  · cases hnb
+  · rename_i hne
+    cases hnb
+    refine ⟨numOk_natRepr _ (by omega), ?_, attrPairs_good _ (hpos n hn').1 (hpos n hn').2⟩
+    intro h
+    have h' : attrPairs n.attrs = [] := h
+    rw [h'] at hne; exact hne rfl
+
+theorem allToks_ok (m : Graph)
+    (hsyms : ∀ s ∈ m.nodes.filterMap (·.attrs.sym), s ∈ elementSyms)
+    (hpos : ∀ n ∈ m.nodes, (∀ v, n.attrs.mass = some v → 0 < v) ∧ (∀ v, n.attrs.rad = some v → 0 < v)) :
+    (allToks m).all ValidTok = true ∧ chainSeparable (allToks m) = true := by
+  obtain ⟨f1, f2, _⟩ := formula_ok _ (items_good _ hsyms)
+  obtain ⟨t1, t2, _⟩ := tuples_ok (sortedEdges m)
+  obtain ⟨a1, a2, _⟩ := attrs_ok _ (blocks_good m hpos)
+  obtain ⟨sv, sn, sl, sd⟩ := punctOk_spec ok_slash
+  have hs : ∀ l, headSafe (tk "/" :: l) = true := by
+    intro l
+    show (!startsLower (tk "/") && !startsDigit (tk "/")) = true
+    simp [sl, sd]
+  unfold allToks
+  refine ⟨?_, ?_⟩
+  · simp only [List.all_append, List.all_cons, f1, t1, sv, Bool.true_and]
+    split
+    · rfl
+    · simp only [List.all_cons, sv, a1]; rfl
+  · refine chain_append f2 (chain_cons_neutral sn (chain_append t2 ?_ ?_)) (hs _)
+    · split
+      · rfl
+      · exact chain_cons_neutral sn a2
+    · split
+      · rfl
+      · exact hs _
+
+/-- (3) the lexer reads the emitted string back as `allToks m` -/
+theorem lex_serializedText (m : Graph)
+    (hsyms : ∀ s ∈ m.nodes.filterMap (·.attrs.sym), s ∈ elementSyms)
+    (hpos : ∀ n ∈ m.nodes, (∀ v, n.attrs.mass = some v → 0 < v) ∧ (∀ v, n.attrs.rad = some v → 0 < v)) :
+    lex (serializedText m) = some (allToks m) := by
+  rw [← render_allToks]
+  exact lex_render _ (allToks_ok m hsyms hpos).1 (allToks_ok m hsyms hpos).2
+
+/-! ### (4) the token list is a sentence with syntax tree `astOf m` -/
+
+theorem sumFormula_hill (syms : List Str) (hel : ∀ s ∈ syms, s ∈ elementSyms) :
+    SumFormula (formulaToks (hillItems syms)) ((hillItems syms).map fun i => (i.1, countText i.2)) := by
+  have h := parseFormula_hillItems syms hel []
+  obtain ⟨pre, hpre, hF⟩ := Sentence.formula_sound _ _ _ h
+  have : formulaToks (hillItems syms) = pre := List.append_cancel_right hpre
+  rw [this]; exact hF
+
+theorem tuples_sentence (es : List (Nat × Nat)) :
+    Tuples (tupleToks es) (es.map fun e => (natRepr (e.1 + 1), natRepr (e.2 + 1))) := by
+  induction es with
+  | nil => exact Tuples.nil
+  | cons e es ih =>
+    have h1 := (numOk_spec (numOk_natRepr (e.1 + 1) (by omega))).2.1
+    have h2 := (numOk_spec (numOk_natRepr (e.2 + 1) (by omega))).2.1
+    have := Tuples.cons h1 h2 ih
+    rw [Hill.numTok_text, Hill.numTok_text] at this
+    exact this
+
+theorem props_sentence (ps : List (Str × Str)) (hne : ps ≠ []) (h : ∀ p ∈ ps, GoodPair p) :
+    Props (pairToks ps) ps := by
+  induction ps using pairToks.induct with
+  | case1 => exact absurd rfl hne
+  | case2 p =>
+    obtain ⟨hk, hn⟩ := h p (by simp)
+    have := Props.one (keyOk_spec hk).2.2 (numOk_spec hn).2.1
+    rw [Hill.numTok_text] at this
+    exact this
+  | case3 p q r ih =>
+    obtain ⟨hk, hn⟩ := h p (by simp)
+    have ih' := ih (by simp) (fun x hx => h x (List.mem_cons_of_mem _ hx))
+    have := Props.more (keyOk_spec hk).2.2 (numOk_spec hn).2.1 ih'
+    rw [Hill.numTok_text] at this
+    rw [pairToks]
+    exact this
+
+theorem attrs_sentence (bs : List (Str × List (Str × Str))) (h : ∀ b ∈ bs, GoodBlock b) :
+    Attrs (attrToks bs) bs := by
+  induction bs with
+  | nil => exact Attrs.nil
+  | cons b bs ih =>
+    obtain ⟨hi, hne, hp⟩ := h b (by simp)
+    have ih' := ih (fun x hx => h x (List.mem_cons_of_mem _ hx))
+    have := Attrs.cons (numOk_spec hi).2.1 (props_sentence b.2 hne hp) ih'
+    rw [Hill.numTok_text] at this
+    have e : attrToks (b :: bs) =
+        tk "(" :: numTok b.1 :: tk ":" :: (pairToks b.2 ++ tk ")" :: attrToks bs) := by
+      simp [attrToks, blockToks]
+    rw [e]
+    exact this
+
+theorem allToks_sentence (m : Graph)
+    (hsyms : ∀ s ∈ m.nodes.filterMap (·.attrs.sym), s ∈ elementSyms)
+    (hpos : ∀ n ∈ m.nodes, (∀ v, n.attrs.mass = some v → 0 < v) ∧ (∀ v, n.attrs.rad = some v → 0 < v)) :
+    Sentence (allToks m) (astOf m) := by
+  have hF := sumFormula_hill _ hsyms
+  have hT := tuples_sentence (sortedEdges m)
+  have hA := attrs_sentence _ (blocks_good m hpos)
+  unfold allToks astOf
+  cases hbs : attrsAstOf m with
+  | nil =>
+    simp only [List.isEmpty_nil, if_true, List.append_nil]
+    exact Sentence.plain hF hT
+  | cons b bs =>
+    rw [hbs] at hA
+    simp only [List.isEmpty_cons, Bool.false_eq_true, if_false]
+    exact Sentence.withAttrs hF hT hA
+
 /-! ### unfolding `serialize_molecule` -/
 
 theorem serialize_unfold (g : Graph) : serializeMolecule g =
@@ -462,8 +623,9 @@ theorem serialize_parses (m : Graph)
     (hsyms : ∀ s ∈ m.nodes.filterMap (·.attrs.sym), s ∈ elementSyms)
     (hpos : ∀ n ∈ m.nodes, (∀ v, n.attrs.mass = some v → 0 < v) ∧ (∀ v, n.attrs.rad = some v → 0 < v)) :
     ∃ toks, lex (serializedText m) = some toks ∧ parseTucan toks = some (astOf m) ∧
-      Sentence toks (astOf m) := by
-  sorry
+      Sentence toks (astOf m) :=
+  ⟨SerTok.allToks m, SerTok.lex_serializedText m hsyms hpos,
+    (parseTucan_iff _ _).mpr (SerTok.allToks_sentence m hsyms hpos), SerTok.allToks_sentence m hsyms hpos⟩
 
 /-- the string returned by `serialize_molecule` is `serializedText` of the sorted molecule -/
 theorem serializeMolecule_text (c : Graph) (s : Str) (p : Graph) (h : serializeMolecule c = .ok (s, p)) :
